@@ -7,9 +7,9 @@ variable {Î¹ : Type} [DecidableEq Î¹] (P : Params) (fx : Fix) (hf : Î¹ â†’ Nat â
 theorem inv_step (hP : P.Layout) (w : World) (g : Ghost Î¹) (hi : Inv P hf w g) (op : Op Î¹) :
     Inv P hf (step P fx hf w op).1 (gstep P hf g w (step P fx hf w op).1 (step P fx hf w op).2 op) := by
   cases op with
-  | new v nb nh seed => exact inv_new P hf w g hi v nb nh seed
+  | new v nb nh seed => exact inv_new P hf w g hi v _ _ _
   | blk m len val => exact inv_blk P hf w g hi m len val
-  | init v m nb nh seed => exact inv_init P hf w g hi v m nb nh seed
+  | init v m nb nh seed => exact inv_init P hf w g hi v m _ _ _
   | upd v x => exact inv_upd P fx hf hP w g hi v x
   | qau v x => exact inv_qau P fx hf hP w g hi v x
   | bits v => exact inv_bits P hf w g hi v
